@@ -736,32 +736,43 @@ func TestC17Decoder(t *testing.T) {
 	})
 }
 
-// repoDocs are the inputs of /repo/styling's decoderTestCases (23 documents).
-var repoDocs = []string{
-	"````",
-	"one\nand two",
-	"```\npre *fmt* ```\n```\nplain",
-	"````\na\n```",
-	"```\na```",
-	"```newtoken\n",
-	">  quoted\nnot quoted",
-	">  quoted\n>>   quote > 2\n>quote 1\n\nnot quoted",
-	"> ",
-	"> ```\n> pre\n> ```\n> not pre",
-	"> ``` \n> pre\nplain",
-	"*strong* _emph_~strike~  `pre`",
-	"*strong*plain*",
-	"* plain *strong*",
-	"not strong*",
-	"*not strong",
-	"*not \n strong*",
-	"*not *strong",
-	"**",
-	"***",
-	"****",
-	"*this cannot _overlap*_",
-	"_no pre `with *children*`_",
+// repoCases are the 23 documents of /repo/styling's decoderTestCases with the
+// token data its TestToken expects ("" is the virtual block-quote end).
+var repoCases = []struct {
+	in   string
+	want []string
+}{
+	{"````", []string{"````"}},
+	{"one\nand two", []string{"one\n", "and two"}},
+	{"```\npre *fmt* ```\n```\nplain", []string{"```\n", "pre *fmt* ```\n", "```\n", "plain"}},
+	{"````\na\n```", []string{"````\n", "a\n", "```"}},
+	{"```\na```", []string{"```\n", "a```"}},
+	{"```newtoken\n", []string{"```newtoken\n"}},
+	{">  quoted\nnot quoted", []string{">  ", "quoted\n", "", "not quoted"}},
+	{">  quoted\n>>   quote > 2\n>quote 1\n\nnot quoted", []string{">  ", "quoted\n", ">", ">   ", "quote > 2\n", "", ">", "quote 1\n", "", "\n", "not quoted"}},
+	{"> ", []string{"> "}},
+	{"> ```\n> pre\n> ```\n> not pre", []string{"> ", "```\n", "> ", "pre\n", "> ", "```\n", "> ", "not pre"}},
+	{"> ``` \n> pre\nplain", []string{"> ", "``` \n", "> ", "pre\n", "", "plain"}},
+	{"*strong* _emph_~strike~  `pre`", []string{"*", "strong", "*", " ", "_", "emph", "_", "~", "strike", "~", "  ", "`", "pre", "`"}},
+	{"*strong*plain*", []string{"*", "strong", "*", "plain*"}},
+	{"* plain *strong*", []string{"* plain ", "*", "strong", "*"}},
+	{"not strong*", []string{"not strong*"}},
+	{"*not strong", []string{"*not strong"}},
+	{"*not \n strong*", []string{"*not \n", " strong*"}},
+	{"*not *strong", []string{"*not *strong"}},
+	{"**", []string{"**"}},
+	{"***", []string{"***"}},
+	{"****", []string{"****"}},
+	{"*this cannot _overlap*_", []string{"*", "this cannot _overlap", "*", "_"}},
+	{"_no pre `with *children*`_", []string{"_", "no pre ", "`", "with *children*", "`", "_"}},
 }
+
+var repoDocs = func() (docs []string) {
+	for _, c := range repoCases {
+		docs = append(docs, c.in)
+	}
+	return docs
+}()
 
 // otherRepoDocs: blockSkipTestCases, the fuzz seeds and the package examples.
 var otherRepoDocs = []string{
@@ -782,6 +793,8 @@ var regressDocs = []string{
 	// span look-ahead sites
 	"**", "*", "**a*", "*a*", "*a**", "* a*", "*a *", "*\u00a0a*", "*a\u00a0*", "*\xc2", "*a\xc2*", "_*a*_", "`*a*`", "*`a*`", "``a`", "``", "`", "```", "````", "*a*```\nx",
 	"*a*> b", "> *a*\n> b", "> *> b*", ">> a\nb", "> a\n```info\n",
+	// deep nesting (quadratic cost in the depth, bounded here)
+	strings.Repeat(">", 150) + " *a*\n" + strings.Repeat("> ", 149) + "b\nc", strings.Repeat("*a*>", 100) + "\n",
 }
 
 // TestC17Sweep reads the repository's documents (and the regression inputs)
@@ -794,6 +807,9 @@ func TestC17Sweep(t *testing.T) {
 	docs = append(docs, otherRepoDocs...)
 	docs = append(docs, regressDocs...)
 	for _, d := range docs {
+		if len(d) > 120 {
+			continue // the deep-nesting documents are read by TestC17Regress only
+		}
 		in := []byte(d)
 		n := len(in)
 		cks := []chunking{
@@ -813,22 +829,12 @@ func TestC17Sweep(t *testing.T) {
 	}
 }
 
-// TestC17RepoDocs pins the one-piece reading of a few repository documents to
-// the token data the repository's own tests expect, so that the differential
+// TestC17RepoDocs pins the reading of the repository's 23 documents to the
+// token data the repository's own TestToken expects, so that the differential
 // oracle is anchored to documented behaviour and not to an arbitrary reading.
 func TestC17RepoDocs(t *testing.T) {
 	ev.Begin(t)
-	for _, tc := range []struct {
-		in   string
-		want []string
-	}{
-		{"> ", []string{"> "}},
-		{">  quoted\nnot quoted", []string{">  ", "quoted\n", "", "not quoted"}},
-		{"```\npre *fmt* ```\n```\nplain", []string{"```\n", "pre *fmt* ```\n", "```\n", "plain"}},
-		{"````\na\n```", []string{"````\n", "a\n", "```"}},
-		{"*strong*plain*", []string{"*", "strong", "*", "plain*"}},
-		{"_no pre `with *children*`_", []string{"_", "no pre ", "`", "with *children*", "`", "_"}},
-	} {
+	for _, tc := range repoCases {
 		in := []byte(tc.in)
 		for _, ck := range []chunking{{name: "one-piece", cuts: whole(len(in))}, {name: "bytewise", cuts: byteCuts(len(in))}, {name: "one-piece", cuts: whole(len(in)), dataErr: true}} {
 			ev.Case(true, fmt.Sprintf("repo %q %v", in, ck), "repo-expected")
@@ -901,6 +907,11 @@ func TestC17LongRapid(t *testing.T) {
 		}
 		unit := genInline(rt, nil, 1)
 		unit = bytes.ReplaceAll(unit, []byte("\n"), []byte(" "))
+		// A '>' after every span end would open one more nested quote per
+		// repetition; the decoder recurses once per level for every token, so
+		// tens of thousands of levels cost minutes (see NOTES.md).  Deep nesting
+		// is covered with bounded depth in regressDocs.
+		unit = bytes.ReplaceAll(unit, []byte(">"), []byte("x"))
 		if len(unit) == 0 {
 			unit = []byte("x")
 		}
